@@ -20,7 +20,7 @@ EXPLANATION = (
     'TT stores a ply-independent value (read at another ply the score is that of the same n); every mate score of the domain is '
     'classified by isWinScore / isLoseScore and fits the 16-bit score field.'
     ' (2) a score found by searching after a null move leaves negaScout only after it was shown not to be a win score; (3) the check-evasion generator is complete (a node in check without evasions is scored as mate).'
-    ' Added later; (6) every TranspositionTable insert in negaScout is guarded by the flag derived from the singular-move test (unrestricted search). (7) forward-pruning skips in the move loop require a non-losing running maximum. (8) a move deferred by the ABDADA first pass (marked BUSY - reduction) is not skipped by the second pass, for every reduction 0..15. (9) a recursive call that can be reached with the exclusive-probe request still set is followed directly by the BUSY test on its result; every other recursive call is made with the request cleared. (10) = C12.1 an installed on-demand table has its region reserved on every exit of updateTB / clear / reSize. (11) = C01.6 the tables that decide whether a double push records an en-passant square are exact for all 8 files.')
+    ' Added later; (6) every TranspositionTable insert in negaScout is guarded by the flag derived from the singular-move test (unrestricted search). (7) forward-pruning skips in the move loop require a non-losing running maximum. (8) a move deferred by the ABDADA first pass (marked BUSY - reduction) is not skipped by the second pass, for every reduction 0..15. (9) a recursive call that can be reached with the exclusive-probe request still set is followed directly by the BUSY test on its result; every other recursive call is made with the request cleared. (10) = C12.1 an installed on-demand table has its region reserved on every exit of updateTB / clear / reSize. (11) = C01.6 the tables that decide whether a double push records an en-passant square are exact for all 8 files. (12) around the null move, the value restored with setEpSquare / setHalfMoveClock was saved before that setter cleared it.')
 UNDECIDED = ('that a reported mate exists (game-tree semantics); soundness of pruning near mate scores (a rule "every pruning is guarded '
              'by normalBound" would also fire on removing a provably redundant conjunct, i.e. on a behaviour-preserving edit - declined).')
 ASSUMPTIONS = ['domain: mates in 0..60 moves at plies 0..40 (covers every distance an 8-bit tablebase state or a search line can encode)']
@@ -60,6 +60,7 @@ def run(fb, rep, tier):
     # .11 a check that can be answered only by an en-passant capture is not mate: the tables that decide whether a double push
     # records an en-passant square are exact for all 8 files (shared with C01.6)
     rep.floor('C04.11', 'en-passant mask tables', C01.ep_tables(fb, rep, 'C04.11'), 2)
+    c12_null_move_saves_before_it_clears(fb, rep, 'C04.12')
 
 
 def encoders(fb, rep, clause):
@@ -931,3 +932,41 @@ def c9_busy_is_not_a_score(fb, rep, clause):
             rep.ob(clause, 'K3 typestate', '%s: recursive call #%d can be reached with the exclusive-probe request set: its result is tested for BUSY before anything else' % (tag, k), ok,
                    R.site(f, e), '' if ok else 'the next decision after the call does not compare the result with BUSY', f.sname)
     rep.floor(clause, 'recursive calls of negaScout', n_calls, 8)
+
+
+# ----------------------------------------------------------------------------- .12
+
+def c12_null_move_saves_before_it_clears(fb, rep, clause):
+    """K1 save / restore around the null move.  The null-move search flips the side to move in place, clears the en-passant
+    square and the half-move clock, searches, and restores all three.  The value restored must be the value from *before*
+    the clearing: a local that is saved from a getter and later handed back to the matching setter must be initialised
+    before any other call of that setter can have run.  Saved after the clearing, the restore writes "no en-passant
+    square": the capture is missing from every move list below the node, and a check that only the en-passant capture
+    answers is scored as mate."""
+    cands = [f for f in fb.funcs.values() if f.has_cfg and f.sname == 'Search::negaScout' and len(f.blocks) > 50]
+    if rep.need(clause, cands, 'Search::negaScout') is None:
+        return
+    PAIRS = {'Position::getEpSquare': 'Position::setEpSquare', 'Position::getHalfMoveClock': 'Position::setHalfMoveClock'}
+    n = 0
+    for f in sorted(cands, key=lambda x: x.name):
+        tag = f.name.replace('Search::', '')
+        for b, i, e in f.events():
+            if e.get('k') != 'decl':
+                continue
+            for v in e.get('vars', []):
+                init = v.get('init')
+                getter = next((cname(x) for x in walk(init) if isinstance(x, dict) and x.get('k') == 'call' and cname(x) in PAIRS), None) if init is not None else None
+                if getter is None:
+                    continue
+                setter = PAIRS[getter]
+                is_set = lambda x, _s=setter: x is not None and x.get('k') == 'call' and cname(x) == _s
+                uses_l = lambda x, _id=v['id']: any(isinstance(y, dict) and y.get('k') == 'var' and y.get('id') == _id for a_ in x.get('args', []) for y in walk(a_))
+                restores = [x for _, _, x in f.events() if is_set(x) and uses_l(x)]
+                if not restores:
+                    continue            # not a save/restore local
+                n += 1
+                early = [(cb, ci, c) for cb, ci, c in f.events() if is_set(c) and not uses_l(c) and
+                         f.path_avoiding((cb, ci), lambda x, _e=e: x is _e, lambda x: is_set(x)) is not None]
+                rep.ob(clause, 'K1 pairing', '%s: the value restored with %s was saved before that setter cleared it' % (tag, setter.split('::')[-1]), not early,
+                       R.site(f, e), '' if not early else 'a call of the setter at line %s runs before the save' % early[0][2].get('ln'), f.sname)
+    rep.floor(clause, 'save / restore locals around the null move', n, 2)
